@@ -883,6 +883,7 @@ impl Aml for Method<'_> {
     fn to_aml_bytes(&self, sink: &mut dyn AmlSink) {
         let mut bytes = Vec::new();
         self.path.to_aml_bytes(&mut bytes);
+        assert!(self.args <= 7, "Method cannot have more than 7 arguments");
         let flags: u8 = (self.args & 0x7) | ((self.serialized as u8) << 3);
         bytes.push(flags);
         for child in &self.children {
